@@ -126,28 +126,76 @@ theorem coh_leak {T : Table} (hT : T.fresh = true) {t e : Entry V} (he : Coh T e
     exact he f hf
   · exact he
 
+/-- on values that are all present, `outVal` is present and depends on the out-entry only
+    through its function tag and its identity bit. -/
+theorem outVal_some (F : Fn V) (p : Producer) (j : Nat) (x : OutField) (cur : Nat → V)
+    (fs : List Field) :
+    ∃ v, outVal F p j x (fs.map (fun f => some (cur f.slot))) = some v := by
+  unfold outVal
+  cases hd : decide (x.field ∈ p.idents) <;> cases fs <;> simp
+
+theorem outVal_congr (F : Fn V) (p : Producer) (j : Nat) (x y : OutField)
+    (hfn : x.fn = y.fn) (hid : decide (x.field ∈ p.idents) = decide (y.field ∈ p.idents))
+    (vals : List (Option V)) : outVal F p j x vals = outVal F p j y vals := by
+  unfold outVal
+  rw [hid, hfn]
+
+theorem Producer.ok_live {T : Table} {c : Cls} {p : Producer} (h : Producer.ok T c p = true)
+    {g : Field} (hg : g ∈ (T.cls p.out).live) :
+    ∃ x y, p.outs.find? (fun x => decide (x.field = g)) = some x ∧
+      p.outs.find? (fun x => decide (x.field.slot = g.slot)) = some y ∧
+      sub x.deps c.live = true ∧ x.deps.map (·.slot) = y.deps.map (·.slot) ∧ x.fn = y.fn ∧
+      decide (x.field ∈ p.idents) = decide (y.field ∈ p.idents) := by
+  simp only [Producer.ok, Bool.and_eq_true, List.all_eq_true] at h
+  have hg' := h.1 g hg
+  cases hx : p.outs.find? (fun x => decide (x.field = g)) with
+  | none => simp [hx] at hg'
+  | some x =>
+    cases hy : p.outs.find? (fun x => decide (x.field.slot = g.slot)) with
+    | none => simp [hx, hy] at hg'
+    | some y =>
+      simp only [hx, hy, Bool.and_eq_true, beq_iff_eq] at hg'
+      obtain ⟨⟨⟨hd, hsl⟩, hfn⟩, hid⟩ := hg'
+      exact ⟨x, y, rfl, rfl, hd, hsl, hfn, hid⟩
+
+theorem Producer.ok_keeps {T : Table} {c : Cls} {p : Producer} (h : Producer.ok T c p = true)
+    {i j : Nat} (hk : (i, j) ∈ p.keeps) :
+    ∃ y, p.outs.find? (fun x => decide (x.field.slot = j)) = some y ∧
+      y.field ∈ p.idents ∧ y.deps.map (·.slot) = [i] := by
+  simp only [Producer.ok, Bool.and_eq_true, List.all_eq_true] at h
+  have hk' := h.2 (i, j) hk
+  cases hy : p.outs.find? (fun x => decide (x.field.slot = j)) with
+  | none => simp [hy] at hk'
+  | some y =>
+    simp only [hy, Bool.and_eq_true, beq_iff_eq, decide_eq_true_eq] at hk'
+    exact ⟨y, rfl, hk'.1, hk'.2⟩
+
+/-- a kept slot of the returned gate is, by specification value, the source's slot. -/
+theorem produceCur_keeps {T : Table} {c : Cls} {p : Producer} (h : Producer.ok T c p = true)
+    (F : Fn V) (cur : Nat → V) {i j : Nat} (hk : (i, j) ∈ p.keeps) :
+    produceCur F p cur j = cur i := by
+  obtain ⟨y, hy, hid, hdeps⟩ := Producer.ok_keeps h hk
+  simp only [produceCur, hy]
+  cases hd : y.deps with
+  | nil => simp [hd] at hdeps
+  | cons f fs =>
+    simp only [hd, List.map_cons, List.cons.injEq] at hdeps
+    simp [outVal, hid, hdeps.1]
+
 theorem coh_call {T : Table} (hT : T.fresh = true) (F : Fn V) {t : Entry V} (ht : Coh T t)
     {P : Producer} (hP : P ∈ (T.cls t.cls).producers) (n : Nat) :
     Coh T (⟨P.out, produceObj F P t.obj, n, produceCur F P t.cur⟩ : Entry V) := by
   intro g hg
   have hp := okParts (fresh_cls hT t.cls)
-  have hok := hp.producers P hP
-  simp only [Producer.ok, List.all_eq_true] at hok
-  have hg' := hok g hg
-  simp only [produceObj, produceCur]
-  cases hx : P.outs.find? (fun x => decide (x.field = g)) with
-  | none => simp [hx] at hg'
-  | some x =>
-    cases hy : P.outs.find? (fun x => decide (x.field.slot = g.slot)) with
-    | none => simp [hx, hy] at hg'
-    | some y =>
-      simp only [hx, hy, Bool.and_eq_true, beq_iff_eq] at hg'
-      obtain ⟨⟨hd, hsl⟩, hfn⟩ := hg'
-      have h1 := map_obj_of_coh ht hd
-      have h2 : x.deps.map (fun f => some (t.cur f.slot)) = y.deps.map (fun f => some (t.cur f.slot)) := by
-        have := congrArg (List.map (fun i => some (t.cur i))) hsl
-        simpa [List.map_map, Function.comp_def] using this
-      simp only [h1, h2, hfn]
+  obtain ⟨x, y, hx, hy, hd, hsl, hfn, hid⟩ := Producer.ok_live (hp.producers P hP) hg
+  simp only [produceObj, produceCur, hx, hy]
+  have h1 := map_obj_of_coh ht hd
+  have h2 : x.deps.map (fun f => some (t.cur f.slot)) = y.deps.map (fun f => some (t.cur f.slot)) := by
+    have := congrArg (List.map (fun i => some (t.cur i))) hsl
+    simpa [List.map_map, Function.comp_def] using this
+  rw [h1, h2, outVal_congr F P g.slot x y hfn hid]
+  obtain ⟨v, hv⟩ := outVal_some F P g.slot y t.cur y.deps
+  rw [hv]; rfl
 
 /-- **one step keeps every object coherent.** -/
 theorem step_coh {T : Table} (hT : T.fresh = true) (F : Fn V) (st : List (Entry V))
